@@ -331,11 +331,35 @@ static ares_status_t buf_fetch_string(ares_buf_t *buf, char *str,
                                       size_t str_len)
 {
   ares_status_t status;
+  size_t        i;
+
   ares_buf_tag(buf);
   ares_buf_consume(buf, ares_buf_len(buf));
 
-  status = ares_buf_tag_fetch_string(buf, str, str_len);
-  return status;
+  /* A tab separates words just like a space does (resolv.conf(5)), but it is
+   * not a printable character: fetching the text as a validated string would
+   * throw away the whole line.  The value parsers split on spaces, so hand
+   * them spaces. */
+  if (str == NULL || str_len == 0) {
+    return ARES_EFORMERR; /* LCOV_EXCL_LINE: DefensiveCoding */
+  }
+  str_len--; /* space for NULL terminator */
+  status = ares_buf_tag_fetch_bytes(buf, (unsigned char *)str, &str_len);
+  if (status != ARES_SUCCESS) {
+    return status;
+  }
+  str[str_len] = 0;
+
+  for (i = 0; i < str_len; i++) {
+    if (str[i] == '\t') {
+      str[i] = ' ';
+    }
+    if (!ares_isprint(str[i])) {
+      return ARES_EBADSTR;
+    }
+  }
+
+  return ARES_SUCCESS;
 }
 
 static ares_status_t config_lookup(ares_sysconfig_t *sysconfig, ares_buf_t *buf,
